@@ -106,6 +106,8 @@ fixed(['C13'], 'c5b4214', 'real MPS reader accepted nan / inf / overflowing numb
 fixed(['C06', 'C04'], '34e27f7', 'getBasisInd() read stale basis ids after rows/columns were removed while a basis is held (wrong or duplicate indices, SPxException "Invalid index"); a known finding of C06/C04 until the end of the work')
 fixed(['C08', 'C02', 'C01'], '1b7c70a', 'the simplifier compared the objective of an empty column with 0 using epsZero(); a rounding residue 2e-16 left by aggregations made default SoPlex report a bounded LP (optimum 0) as UNBOUNDED (findings/C08_verdict_unbounded_on_bounded.lp; C08 verdict.UNBOUNDED:{})')
 fixed(['C01', 'C08', 'C02'], '5132c2b', 'trivialHeuristic()/propagatePseudoobj() of the simplifier used the objective offset with the sign of the LP sense in maximization-form sums; after a multi-aggregation changed the offset a feasible minimization LP was reported INFEASIBLE by default SoPlex (findings/C01_default_infeasible_multiaggregation_offset.cpp; C01 complete.INFEASIBLE:{}+needs{simplifier})')
+fixed(['C08'], '6b111dc', 'MultiAggregationPS added obj*const/a to the objective offset with the coefficient of the minimization form: for a maximization LP reduced optimum + getObjoffset() != original optimum (C08 objoffset.(okay|vanished):{...MultiAggregation...}; a known finding until the last hours)')
+fixed(['C08'], '40774d1', 'removeEmpty() fixed an empty column at a bound although a row singleton had made its bounds contradictory: the simplifier "solved" an infeasible LP outright (VANISHED), e.g. min -4y s.t. 8x-9y=-8, 4x-6y>=9, x>=2, y>=0 (findings/C08_vanished_infeasible.lp; C08 verdict.VANISHED:{}; a known finding until the last hours)')
 
 # ------------------------------------------------------------------ open findings
 UND = r'(ABORT_CYCLING|RUNNING|UNKNOWN|ERROR|SINGULAR|NO_PROBLEM|NOT_INIT|OPTIMAL_UNSCALED_VIOLATIONS)'
@@ -177,11 +179,7 @@ open_(['C08'], r'unsimplify\.exception\.(okay|vanished):\{[^}]*Aggregation[^}]*\
       repro='findings/C08_unsimplify_exception_aggregation.lp')
 open_(['C08'], r'postsolve\.(compl-row|dualsign|rcsign|compl-col)\.(okay|vanished):\{[^}]*RowSingleton[^}]*\}',
       'RowSingletonPS: the dual of a removed singleton row gets the wrong sign / is not complementary for a row that is one-sided in the original LP, or the reduced cost stays on the column although the bound it prices came from the singleton row and the original bound is infinite (minimal LP 4x4 with FixBounds, FixVariable, RowSingleton)', regex=True)
-open_(['C08'], r'objoffset\.(okay|vanished):\{[^}]*MultiAggregation[^}]*\}',
-      'multi-aggregation does not add the constant part of the substituted objective term to the objective offset (reduced optimum + getObjoffset() != original optimum)', regex=True)
 open_(['C08'], 'verdict.UNBOUNDED-on-infeasible:{}', 'simplifier reports UNBOUNDED for an LP that is (primal) infeasible and dual infeasible')
-open_(['C08'], 'verdict.VANISHED:{}', 'simplifier "solves" an infeasible LP outright (VANISHED), e.g. min -4y s.t. 8x-9y=-8, 4x-6y>=9, x>=2, y>=0',
-      repro='findings/C08_vanished_infeasible.lp')
 open_(['C08'], 'reduced-class:{}', 'reduced LP is unbounded/infeasible (even relaxed by 1e-9) although the original has a certified finite optimum',
       repro='findings/C08_reduced_unbounded.lp')
 # --- file I/O
